@@ -6,6 +6,7 @@ mod driver;
 mod hist;
 mod hist_judge;
 mod interpose;
+mod layout;
 mod maps;
 mod mem;
 mod place;
@@ -14,6 +15,7 @@ mod probes;
 mod shapes;
 mod sigs;
 mod targets;
+mod times;
 mod worker;
 
 use driver::{signal_name, Exec, Worker};
@@ -52,10 +54,22 @@ pub fn dispatch(req: &Value) -> Value {
             Ok(c) => serde_json::to_value(shapes::execute(&c)).unwrap(),
             Err(e) => json!({"harness_error": format!("bad shape case: {e}")}),
         },
+        "layout" => match serde_json::from_value::<layout::LayoutCase>(req["case"].clone()) {
+            Ok(c) => serde_json::to_value(layout::execute(&c)).unwrap(),
+            Err(e) => json!({"harness_error": format!("bad layout case: {e}")}),
+        },
+        "times" => match serde_json::from_value::<times::TimesCase>(req["case"].clone()) {
+            Ok(c) => serde_json::to_value(times::execute(&c)).unwrap(),
+            Err(e) => json!({"harness_error": format!("bad times case: {e}")}),
+        },
         "ping" => json!({"pong": true}),
         _ => json!({"harness_error": format!("unknown op {op}")}),
     }
 }
+
+/// When set, every case runs in a fresh worker process (a case is then a complete process
+/// history; needed where state lives in statics the harness cannot reset).
+pub static FRESH_WORKER_PER_CASE: std::sync::atomic::AtomicBool = std::sync::atomic::AtomicBool::new(false);
 
 pub fn shards() -> usize {
     std::env::var("VERIF_SHARDS").ok().and_then(|s| s.parse().ok()).unwrap_or(8)
@@ -87,7 +101,13 @@ where
                         sub.inconclusive.push(format!("worker calibration failed: {hello}"));
                         return sub;
                     }
+                    let fresh = FRESH_WORKER_PER_CASE.load(std::sync::atomic::Ordering::SeqCst);
+                    let mut used = false;
                     let out = run_prop(base_stream * 64 + sh as u64, per, mk_strategy(), |c: &C| {
+                        if fresh && used {
+                            w.retire();
+                        }
+                        used = true;
                         let ex = w.exec(&json!({"op": op, "case": c, "opts": opts}), timeout);
                         let r = judge(&mut sub, c, ex, &hello);
                         if r.is_err() {
@@ -242,6 +262,29 @@ fn cmd_shapes(prop: &str) -> i32 {
     rec.finish(&out_path())
 }
 
+fn cmd_layout(prop: &str) -> i32 {
+    let mut rec = Recorder::new(prop, "n-layout", "N: generated (target address incl. below 128 MiB where the search window is clipped at zero, in-page offset) x neighbourhood layout {kernel; full; full except one free page at offset -R-1..R+1 pages incl. the extreme pages; sparse set of free pages} x behaviour of an occupied hint {far fallback like Linux; MAP_FAILED; another in-range free page} x realisation {interposer layout model; real kernel with a PROT_NONE reservation and punched holes}; oracle: success => entry decodes to a branch into the one mapping kept, every other mapping obtained during the search was given back with its own address and a covering length, call reaches the fake, drop releases it; panic => target untouched and nothing left mapped; no foreign or duplicate munmap ever; non-trivial = first attempt did not succeed, or the free page is one of the extreme pages, or the window is clipped; distinct by (target, layout, fallback, realisation, outcome)");
+    rec.assumptions.push("x86-64: rel32 reach (+/-2 GiB) exceeds the +/-128 MiB search window, so `within reach` is decided by decoding the entry branch to the kept mapping; finite-reach behaviour (AArch64 B) is decided in simulation (engine s2-arm64)".into());
+    let n = cases(1600, 100_000);
+    run_sharded(&mut rec, 11, n, shards(), "layout", Value::Null, Duration::from_secs(120), layout::strategy, layout::judge, |c| json!({"LayoutCase": c}));
+    rec.finish(&out_path())
+}
+
+fn cmd_times(prop: &str) -> i32 {
+    let c07 = prop == "C07";
+    let rule = if c07 {
+        "N: generated sequences of 2..8 injector lifetimes that evaluate the same fake!(..., times: N) expression (4 call sites: when+returns+times, returns+times, unit assign+times, when+assign+returns+times; N and the calls per lifetime generated, N changing between lifetimes); oracle (metamorphic): every lifetime's per-call outcomes and exit verdict equal those of a process in which it is the only lifetime (reference model counting from zero); non-trivial = lifetime at a site that an earlier lifetime already used and that absorbed >= 1 call there; distinct by (position, lifetime)"
+    } else {
+        "N: generated N in {0..8, 64, 300}, k in 0..N+2 matching calls interleaved with 0..3 calls failing `when`, split over 1..16 threads released by a barrier, every call caught individually, exit normal or unwinding; oracle (reference model, order-free across threads): exactly min(k,N) matching calls return with the fake's freshly evaluated value and max(0,k-N) panic `more times than expected`; calls failing `when` panic `unexpected arguments` and are not counted; scope exit panics iff k != N and not unwinding, naming N and k; non-trivial = k >= 1 and (k > N or a non-matching call or >= 2 threads); distinct by lifetime"
+    };
+    let mut rec = Recorder::new(prop, "n-times", rule);
+    FRESH_WORKER_PER_CASE.store(true, std::sync::atomic::Ordering::SeqCst);
+    rec.notes.push("every case runs in a fresh worker process: the counters live in statics of the fake! call sites, so a case is a complete process history and a shrunk failure replays from its file".into());
+    let n = cases(3000, 200_000);
+    run_sharded(&mut rec, if c07 { 7 } else { 6 }, n, shards(), "times", Value::Null, Duration::from_secs(60), move || times::strategy(c07), times::judge, |c| json!({"TimesCase": c}));
+    rec.finish(&out_path())
+}
+
 fn cmd_sig(prop: &str) -> i32 {
     if prop == "C10" {
         let mut rec = Recorder::new(prop, "n-boolsig", "N: generated signature strings (type grammar rendered in type_name style; return types biased to renderings that merely end in `-> bool`: nested fn pointers, &dyn Fn() -> bool, raw pointers to fn types, and look-alikes Option<bool>, (bool,), [bool; 1], &bool) passed through FuncPtr::new + will_return_boolean(v); oracle (from the generated structure, never by parsing): accepted iff the top-level return type is exactly bool; refusal = panic with no interposed call and no byte changed; accepted => the call returns v; non-trivial = return type textually ending in `-> bool` without being bool, or bool behind >= 3 parameters; distinct by (string, value)");
@@ -317,6 +360,14 @@ fn cmd_replay(path: &str) -> i32 {
         let c: shapes::ShapeCase = serde_json::from_value(c.clone()).expect("ShapeCase");
         let ex = w.exec(&json!({"op": "shape", "case": c}), Duration::from_secs(30));
         shapes::judge(&mut rec, &c, ex, &hello)
+    } else if let Some(c) = case.get("LayoutCase") {
+        let c: layout::LayoutCase = serde_json::from_value(c.clone()).expect("LayoutCase");
+        let ex = w.exec(&json!({"op": "layout", "case": c}), Duration::from_secs(120));
+        layout::judge(&mut rec, &c, ex, &hello)
+    } else if let Some(c) = case.get("TimesCase") {
+        let c: times::TimesCase = serde_json::from_value(c.clone()).expect("TimesCase");
+        let ex = w.exec(&json!({"op": "times", "case": c}), Duration::from_secs(60));
+        times::judge(&mut rec, &c, ex, &hello)
     } else if let Some(c) = case.get("SigCase") {
         let c: sigs::SigCase = serde_json::from_value(c.clone()).expect("SigCase");
         let ex = w.exec(&json!({"op": "sig", "case": c}), Duration::from_secs(30));
@@ -362,6 +413,8 @@ fn main() {
         "hist" => cmd_hist(prop.as_deref().unwrap_or("C02")),
         "probe" => cmd_probe(prop.as_deref().unwrap_or("C13")),
         "sig" => cmd_sig(prop.as_deref().unwrap_or("C09")),
+        "times" => cmd_times(prop.as_deref().unwrap_or("C06")),
+        "layout" => cmd_layout(prop.as_deref().unwrap_or("C11")),
         "shapes" => cmd_shapes(prop.as_deref().unwrap_or("C13")),
         "replay" => cmd_replay(args.get(2).expect("replay <file>")),
         "calibrate" => {
